@@ -10,6 +10,11 @@ ALL = [f"C{i:02d}" for i in range(1, 20)]
 
 # id -> (engine, category, level text, level note, technique, design_ref)
 CHECKS = {
+ "C05": ("L2 network simulation", "exploration",
+   "The real client syncs a generated chain of 1100-2600 blocks from peers that are honest for headers/cfheaders, then GetCFilter is called (targets at block 1, tip, around 1000/2000 boundaries; no/forward/reverse/capped batching; sequential, repeated, concurrent, after a restart on the same directory; with and without PersistToDisk) while each peer rewrites its getcfilters answers with one of 24 mutation kinds (reorder, duplicate, omit, silence, wrong type, unsolicited extras, and corruption at target/first/last/middle by bit flip, truncation, garbage, another block's valid filter, right filter under a wrong hash ...); every returned filter, every FilterCache entry after every round and every FilterDB entry after Stop must hash with the committed previous filter header to the committed header of its block and equal the ground-truth bytes; a success without any verifiable delivery on the wire is a violation.",
+   "Failure despite a verifiable delivery is only counted (the statement promises safety, not success). Forced worker timeouts are bounded with the public NumRetries option.",
+   "runtime monitoring: committed-header verification of every returned/cached/persisted filter under scripted response mutation", "5/C05"),
+
  "C06": ("L2 network simulation", "exploration",
    "The real client syncs a generated chain and GetBlock is called (sequential, concurrent, repeated, both encodings) while peers answer getdata(block) from a 29-kind vocabulary (honest, other block, nothing, garbage, and the requested header with mutated / added / removed / duplicated (CVE-2012-2459) / reordered transactions, stripped / forged witnesses, altered commitment ...); every message sent is labelled from its own bytes; returned blocks and every BlockCache entry must be byte-identical to the generator's block, senders of invalid blocks with the requested header must carry an InvalidBlock ban in the reopened ban store and no innocent peer may, banned addresses end without an open connection, and calls succeed when the true block was delivered.",
    "Ban attribution only when the event log shows the response reached an active call; BaseEncoding requests for witness blocks are labelled ambiguous and only counted.",
@@ -111,7 +116,7 @@ def main():
         "engines": [
             {"name": "L1 block-manager driver", "path": "harness/internal/l1", "serves_properties": ["C01", "C02", "C03", "C19"],
              "kind_free_text": "real blockManager + real headerfs stores, scripted network, synchronous message-at-a-time driving, store read-back after every step"},
-            {"name": "L2 network simulation", "path": "harness/internal/l2", "serves_properties": ["C03", "C04", "C06", "C18"],
+            {"name": "L2 network simulation", "path": "harness/internal/l2", "serves_properties": ["C03", "C04", "C05", "C06", "C18"],
              "kind_free_text": "the complete real ChainService through its public API against scripted wire peers reached through Config.Dialer; one child process per scenario"},
             {"name": "crash runner", "path": "harness/internal/c08", "serves_properties": ["C08"],
              "kind_free_text": "crash images at every File/DB boundary point and real SIGKILL of child processes, recovery oracle on reopen"},
